@@ -16,8 +16,11 @@ type HashModel struct {
 }
 
 // tokU64 marks a buffer filled by binary.BigEndian.PutUint64 with the value T.
-type tokU64 struct{ T *smt.Term }
-type tokPad struct{}
+type tokU64 struct {
+	T    *smt.Term
+	Byte *smt.Term // the most significant byte, for code that reads the buffer byte by byte
+}
+type tokPad struct{ Byte *smt.Term }
 
 var two64m1 = new(big.Int).Sub(new(big.Int).Lsh(big.NewInt(1), 64), big.NewInt(1))
 
@@ -130,9 +133,15 @@ func registerHash(p *Program) {
 		if len(buf) < 8 {
 			panic(targetPanic{v: "index out of range in PutUint64", what: "index"})
 		}
-		buf[0] = tokU64{m.intTerm(args[2])}
+		t := m.intTerm(args[2])
+		c := m.Ctx
+		byteAt := func(i int) *smt.Term {
+			sh := new(big.Int).Lsh(big.NewInt(1), uint(8*(7-i)))
+			return c.Mod(c.IDiv(t, c.BigInt(sh)), c.Int(256))
+		}
+		buf[0] = tokU64{T: t, Byte: byteAt(0)}
 		for i := 1; i < 8; i++ {
-			buf[i] = tokPad{}
+			buf[i] = tokPad{Byte: byteAt(i)}
 		}
 		return nil
 	})
